@@ -14,8 +14,10 @@ def run(tier, seed):
     build_harness()
     th = tier == "thorough"
     tp = os.path.join(OUT, "traces", "C18-sweep.ndjson")
-    vh(["codec-sweep", "--seed", seed, "--small", 300 if th else 40, "--big", 70 if th else 14, "--dots", 60 if th else 8, "--out", tp], timeout=1800)
-    recs = read_ndjson(tp); os.remove(tp)
+    recs, died = vh_records(["codec-sweep", "--seed", seed, "--small", 300 if th else 40, "--big", 70 if th else 14, "--dots", 60 if th else 8], tp, timeout=1800 if th else 900)
+    if died:
+        g = died["during"]
+        run.violation({"kind": "crash", "prop": "C18", "rc": died["rc"], "what": g.get("kind"), "n": g.get("n")}, [dict(g, crashed=True)], header={"exec": "codec-sweep"})
     g6 = [r for r in recs if r.get("kind") == "g6"]
     dots = [r for r in recs if r.get("kind") == "dot"]
     run.extra["graph6_records"] = len(g6); run.extra["dot_records"] = len(dots)
